@@ -1,5 +1,6 @@
 import ExprModel.Proofs.LexNumber
 import ExprModel.Proofs.LexString
+import ExprModel.Proofs.LexPos
 import ExprModel.Gen.LexTables
 /-
 C12 — Literals and token positions are lexed faithfully.
@@ -230,5 +231,53 @@ theorem string_quirks :
     lexChars CharClass.ascii LexTables.std "\"\\xE9\"".toList = .ok [⟨.string, "é", ⟨1, 0⟩⟩, ⟨.eof, "", ⟨1, 5⟩⟩] ∧
     lexChars CharClass.ascii LexTables.std "\"\\uD800\"".toList = .ok [⟨.string, "\uFFFD", ⟨1, 0⟩⟩, ⟨.eof, "", ⟨1, 7⟩⟩] ∧
     lexChars CharClass.ascii LexTables.std "\"a\nb\"".toList = .error (⟨2, 0⟩, "unterminated") := by decide
+
+/-! ## Token positions -/
+
+/-- **token_positions**: for every source and every classification of runes, when `lex` succeeds its
+tokens lie in the source one after the other, separated only by white space, each token located at the
+position (`advLoc ⟨1,0⟩ (text before it)`: line 1-based, column 0-based, in runes) of the first character
+of its raw text, whose relation to the token value is `TextOf` (identical text; or the text `unescape`s to
+the value of a String token; or `not`, blanks, `in` for the operator `not in`); the last token is EOF.
+From the invariants I1–I5 of DESIGN Appendix D (`Good`, `Fresh` in Proofs/LexPos). -/
+theorem token_positions (cc : CharClass) (src : String) (toks : List Token)
+    (h : lex cc LexTables.std src = .ok toks) : Laid cc LexTables.std ⟨1, 0⟩ src.toList toks :=
+  lexChars_laid cc src.toList toks h
+
+/-- … token by token: every token except EOF carries the position of the first character of its text -/
+theorem token_positions_each (cc : CharClass) (src : String) (toks : List Token)
+    (h : lex cc LexTables.std src = .ok toks) :
+    ∀ t ∈ toks, t.kind ≠ .eof → ∃ pre raw post, src.toList = pre ++ raw ++ post ∧ raw ≠ [] ∧
+      (∀ c, raw.head? = some c → cc.isSpace c = false) ∧ t.loc = posOf pre ∧ TextOf LexTables.std t raw :=
+  (token_positions cc src toks h).positions
+
+/-- `lex_nonempty`: a successful `lex` ends with EOF, and EOF occurs only there -/
+theorem lex_ends_with_eof (cc : CharClass) (src : String) (toks : List Token)
+    (h : lex cc LexTables.std src = .ok toks) :
+    ∃ ts t, toks = ts ++ [t] ∧ t.kind = .eof ∧ ∀ x ∈ ts, x.kind ≠ .eof :=
+  (token_positions cc src toks h).last_eof
+
+/-- what `posOf` is: the line is 1 + the number of line feeds before, the column the number of runes
+since the last line feed (or since the start) -/
+theorem posOf_line (pre : List Char) : (posOf pre).line = 1 + pre.count '\n' := advLoc_line _ _
+theorem posOf_col_first_line (pre : List Char) (h : ∀ c ∈ pre, c ≠ '\n') : (posOf pre).col = pre.length := by
+  rw [posOf, advLoc_noNL _ _ h]; simp
+theorem posOf_col_after_newline (a b : List Char) (h : ∀ c ∈ b, c ≠ '\n') :
+    (posOf (a ++ '\n' :: b)).col = b.length := advLoc_col_afterNL _ a b h
+
+/-- … for the tables regenerated from the source on this run -/
+theorem token_positions_code (cc : CharClass) (src : String) (toks : List Token)
+    (h : lex cc Gen.lexTables src = .ok toks) : Laid cc LexTables.std ⟨1, 0⟩ src.toList toks :=
+  token_positions cc src toks (tables_pinned ▸ h)
+
+/-- a concrete instance (the hypothesis is not vacuous): multi-line, multi-byte, `not in`, a range -/
+example : lex CharClass.ascii LexTables.std "a\n  not  in [1..2,\n\t\"é\\n\"]" =
+    .ok [⟨.identifier, "a", ⟨1, 0⟩⟩, ⟨.operator, "not in", ⟨2, 2⟩⟩, ⟨.bracket, "[", ⟨2, 10⟩⟩,
+      ⟨.number, "1", ⟨2, 11⟩⟩, ⟨.operator, "..", ⟨2, 12⟩⟩, ⟨.number, "2", ⟨2, 14⟩⟩, ⟨.operator, ",", ⟨2, 15⟩⟩,
+      ⟨.string, "é\n", ⟨3, 1⟩⟩, ⟨.bracket, "]", ⟨3, 6⟩⟩, ⟨.eof, "", ⟨3, 6⟩⟩] := by decide
+
+/-- I5 made visible: after the last token the recorded location is stale by one rune, which only the EOF
+token (placed at `prev`) shows: here EOF is reported at 1:1, the position *of* the last character -/
+example : lex CharClass.ascii LexTables.std "ab" = .ok [⟨.identifier, "ab", ⟨1, 0⟩⟩, ⟨.eof, "", ⟨1, 1⟩⟩] := by decide
 
 end ExprModel.C12
